@@ -96,6 +96,11 @@ CHECKS["C08"] = dict(
     note="Bounds: <= 3-5 rows with <= 2-3 support points, 1-2 reference points of dimension 1, memory_size symbolic over every block size from 1 row to all rows. Not decided (LP uniqueness / floating-point SVD, listed as uncovered in the evidence): invariance under zero-weight padding, permutation and splitting of support points; distance preservation under a full-rank SVD; the Sinkhorn and heuristic methods; fit-time block loops.",
     ref="4/C08")
 
+CHECKS["C15"] = dict(
+    text="Bounded symbolic model checking of the real LabelledTreeCooccurrenceVectorizer (fit_transform / transform, sequence_tree_skip_grams, build_tree_skip_grams, sparse_collapse with LabelBinarizer's 1- and 2-class special cases, preprocess_tree_sequences, remove_node): for every rooted forest shape within the bound (parent arrays as case parameters, isolated nodes and several trees included), unconstrained symbolic labels (repeated labels are ordinary paths), window radius 1..3, flat / harmonic kernels, all four orientations and a symbolic removed label, every entry equals the kernel-weighted number of directed walks of at most radius steps between nodes with those labels, computed by an independent dynamic programme over the parent arrays after reconnecting children of removed nodes to their nearest kept ancestor; 'before' is the transpose, 'symmetric' the sum, 'directional' the concatenation; transform(X) equals fit_transform(X); on path graphs the matrix equals the real TokenCooccurrenceVectorizer's on the label sequence (symbolic differential of two implementations).",
+    note="Bounds: trees of <= 3 nodes quick (4 thorough), <= 2 trees, radius <= 3, unweighted adjacency. The sparse-algebra model (products, transposes, LIL row lists, hstack, eye) keeps structure concrete and values symbolic and is validated by one replay per explored path on the real scipy. Not covered: weighted adjacency, mask_string / nullify_mask on trees, tree-occurrence bounds.",
+    ref="4/C15")
+
 NOT_YET = {}
 
 
